@@ -7,4 +7,4 @@ tmp=$(mktemp -d /tmp/overlay_XXXX)
 trap 'rm -rf "$tmp"' EXIT
 REPO="${REPO:-/repo}"; target="$REPO/$pkg/zz_verif_replay_test.go"
 printf '{"Replace":{"%s":"%s"}}' "$target" "$file" > "$tmp/ov.json"
-cd "$REPO" && (ulimit -v 8000000; go test -overlay "$tmp/ov.json" -vet=off -count=1 -timeout 60s -run "$name" "./$pkg" 2>&1 | tail -15)
+cd "$REPO" && (ulimit -v 8000000; go test ${GOTESTFLAGS:-} -overlay "$tmp/ov.json" -vet=off -count=1 -timeout 60s -run "$name" "./$pkg" 2>&1 | tail -${TAILN:-15})
